@@ -860,6 +860,13 @@ async fn run_case(c: &Value, progress: Arc<AtomicUsize>, next_op: &mut dyn FnMut
                 sim.deliver_all(&mut acc, l, k, None).await;
                 vec![k]
             }
+            "lose" => {
+                // Model.Sim.lose_all: everything in flight to node k is lost
+                for i in 0..sim.soup.len() {
+                    sim.mark_seen(k, i);
+                }
+                vec![k]
+            }
             "deliver_from" => {
                 let l = sim.soup.len();
                 let keys = usizes(&op["keys"]);
@@ -907,6 +914,8 @@ struct Live {
     nodes: Vec<LiveNode>,
     /// group id per node (messages pass only inside a group); None = no partition
     groups: Option<Vec<usize>>,
+    /// nodes that receive nothing (their own messages still travel)
+    deaf: Vec<usize>,
     drop_pct: u64,
     rng: u64,
     forwarded: usize,
@@ -985,6 +994,10 @@ impl Live {
                             self.dropped += 1;
                             continue;
                         }
+                    }
+                    if j != k && self.deaf.contains(&j) {
+                        self.dropped += 1;
+                        continue;
                     }
                     if j != k && self.drop_pct > 0 && self.rand() % 100 < self.drop_pct {
                         self.dropped += 1;
@@ -1113,7 +1126,7 @@ async fn run_live(c: &Value, progress: Arc<AtomicUsize>) -> Value {
         nodes.push(LiveNode { rank, engine, manager, out_send, inbound: None, stop: None, task: None, _runner: runner_task });
     }
     let mut live = Live {
-        sh: sh.clone(), clock: clock.clone(), nodes, groups: None, drop_pct: 0,
+        sh: sh.clone(), clock: clock.clone(), nodes, groups: None, deaf: vec![], drop_pct: 0,
         rng: c["live_seed"].as_u64().unwrap_or(1), forwarded: 0, dropped: 0, first_block,
     };
     for k in 0..live.nodes.len() {
@@ -1138,8 +1151,10 @@ async fn run_live(c: &Value, progress: Arc<AtomicUsize>) -> Value {
                 }
                 live.groups = Some(g);
             }
+            "deaf" => live.deaf = usizes(&op["ks"]),
             "heal" => {
                 live.groups = None;
+                live.deaf = vec![];
                 live.drop_pct = 0;
             }
             "drop" => live.drop_pct = op["pct"].as_u64().unwrap(),
